@@ -68,11 +68,13 @@ def calculate_treelikelihood_discrete(
         partials[node] = (mats[..., left, :, :, :] @ partials[left]) * (
             mats[..., right, :, :, :] @ partials[right]
         )
-    return torch.sum(
-        torch.log(freqs @ torch.sum(props * partials[post_indexing[-1][0]], -3))
-        * weights,
-        -1,
+    site_likelihoods = freqs @ torch.sum(props * partials[post_indexing[-1][0]], -3)
+    # subnormal values have lost precision: report them as underflow (-inf) so that
+    # the caller switches to rescaling
+    site_likelihoods = site_likelihoods.masked_fill(
+        site_likelihoods < torch.finfo(site_likelihoods.dtype).tiny, 0.0
     )
+    return torch.sum(torch.log(site_likelihoods) * weights, -1)
 
 
 def calculate_treelikelihood_tip_states_discrete(
@@ -124,11 +126,13 @@ def calculate_treelikelihood_tip_states_discrete(
 
         partials[node] = p_left * p_right
 
-    return torch.sum(
-        torch.log(freqs @ torch.sum(props * partials[post_indexing[-1][0]], -3))
-        * weights,
-        -1,
+    site_likelihoods = freqs @ torch.sum(props * partials[post_indexing[-1][0]], -3)
+    # subnormal values have lost precision: report them as underflow (-inf) so that
+    # the caller switches to rescaling
+    site_likelihoods = site_likelihoods.masked_fill(
+        site_likelihoods < torch.finfo(site_likelihoods.dtype).tiny, 0.0
     )
+    return torch.sum(torch.log(site_likelihoods) * weights, -1)
 
 
 def calculate_treelikelihood_discrete_safe(
